@@ -801,9 +801,16 @@ class ExprMaker:
         raise KeyError(n)
 
 
+# classes the engine refuses to differentiate (an error on every row, on every worker thread at once, is also where the
+# external engine is fragile): derivatives are not requested from them
+NONDIFF = {'And', 'Or', 'Equal', 'NotEqual', 'LessOrEqual', 'GreaterOrEqual', 'Less', 'Greater', 'BelongsTo', 'ComparisonOperator'}
+
+
 def expression_variants(alias: str, clsname: str, W: World):
     """argument variants for one alias of the Expression family on one receiver class"""
     from biogeme.expressions.idmanager import IdManager
+
+    diff = clsname not in NONDIFF
 
     mk = ExprMaker(W)
     db = W.database()
@@ -826,9 +833,9 @@ def expression_variants(alias: str, clsname: str, W: World):
                V('aggregated-betas-positional-database', recv=inst(), args=[db, {'b1': 0.7, 'b2': 0.4}], kwargs=dict(aggregation=True, prepare_ids=True, number_of_draws=nd)),
                V('data-free', recv=inst(True), kwargs=dict(prepare_ids=True))]
     elif alias == 'getValueAndDerivatives':
-        out = [V('aggregated-all', recv=inst(), kwargs=dict(database=db, prepare_ids=True, number_of_draws=nd)),
-               V('rows-gradient-named', recv=inst(), args=[{'b1': 0.7}], kwargs=dict(database=db, aggregation=False, hessian=False, bhhh=False, prepare_ids=True,
-                                                                                   number_of_draws=nd, named_results=True))]
+        out = [V('aggregated-all', recv=inst(), kwargs=dict(database=db, prepare_ids=True, number_of_draws=nd, gradient=diff, hessian=diff, bhhh=diff)),
+               V('rows-gradient-named', recv=inst(), args=[{'b1': 0.7}], kwargs=dict(database=db, aggregation=False, gradient=diff, hessian=False, bhhh=False,
+                                                                                   prepare_ids=True, number_of_draws=nd, named_results=True))]
     elif alias == 'createFunction':
         def call(f):
             import numpy as np
@@ -841,7 +848,7 @@ def expression_variants(alias: str, clsname: str, W: World):
             except BaseException:  # noqa
                 return 1
 
-        out = [V('gradient-hessian', recv=inst(), kwargs=dict(database=db, number_of_draws=nd, gradient=True, hessian=True, bhhh=False), post=call),
+        out = [V('gradient-hessian', recv=inst(), kwargs=dict(database=db, number_of_draws=nd, gradient=diff, hessian=diff, bhhh=False), post=call),
                V('inconsistent-flags', recv=inst(), args=[db, nd, False, True, False])]
     elif alias == 'getSignature':
         out = [V('numbered', recv=inst(prepared=True)), V('not-numbered', recv=inst())]
@@ -860,8 +867,10 @@ def expression_variants(alias: str, clsname: str, W: World):
     elif alias == 'embedExpression':
         out = [V('own-class', recv=inst(), args=[clsname]), V('beta', recv=inst(), args=['Beta']), V('montecarlo', recv=inst(), kwargs=dict(t='MonteCarlo'))]
     elif alias == 'getElementaryExpression':
-        out = [V('b1', recv=inst(), args=['b1']), V('x1', recv=inst(), args=['x1']), V('absent', recv=inst(), args=['nosuch']),
-               V('own-name', recv=inst(), kwargs=dict(name='xi' if clsname == 'bioDraws' else 'omega'))]
+        e0 = inst()
+        own = getattr(e0, 'name', None) if isinstance(getattr(e0, 'name', None), str) and clsname != 'Catalog' else 'b1'
+        out = [V('own-name-or-b1', recv=e0, args=[own]), V('x1', recv=inst(), args=['x1']), V('absent', recv=inst(), args=['nosuch']),
+               V('keyword-b2', recv=inst(), kwargs=dict(name='b2'))]
     else:
         return None
     return out
@@ -883,6 +892,8 @@ def param_variants(owner: str | None, module: str, func: str, old_kw: str, clsna
         mk = ExprMaker(W)
         db = W.database()
         e = mk.make(clsname)
+        diff = clsname not in NONDIFF
+        nograd = {} if (diff or func != 'get_value_and_derivatives') else dict(gradient=False, hessian=False, bhhh=False)
         if old_kw == 'numberOfDraws':
             e = mk.make('MonteCarlo') if clsname in ('Expression',) else e
             val = W.rng.randint(5, 15)
@@ -896,10 +907,10 @@ def param_variants(owner: str | None, module: str, func: str, old_kw: str, clsna
                         return f(x[:n])
                     return f.dimension()
 
-                return [dict(label='draws', recv=e, args=[], kwargs=dict(database=db, hessian=False), value=val, post=call)]
-            return [dict(label='draws', recv=e, args=[], kwargs=dict(database=db, prepare_ids=True), value=val)]
+                return [dict(label='draws', recv=e, args=[], kwargs=dict(database=db, hessian=False, gradient=diff), value=val, post=call)]
+            return [dict(label='draws', recv=e, args=[], kwargs=dict(dict(database=db, prepare_ids=True), **nograd), value=val)]
         if old_kw == 'prepareIds':
-            return [dict(label='prepare', recv=e, args=[], kwargs=dict(database=db, number_of_draws=8), value=True)]
+            return [dict(label='prepare', recv=e, args=[], kwargs=dict(dict(database=db, number_of_draws=8), **nograd), value=True)]
     if owner == 'biogeme.biogeme.BIOGEME':
         if func == '__init__':
             from biogeme.biogeme import BIOGEME
